@@ -2,7 +2,7 @@
 
 Space (every member is executed on the real ColorsConfig / Palette machinery):
   description sets : every acyclic assignment of menu entries to the ids of a family (2, 3 or 4 ids, one of
-                     them spelled "T.D" = nested {"T": {"D": ..}}); menu = 5 parentless forms + 9 forms
+                     them spelled "T.D" = nested {"T": {"D": ..}}); menu = 7 parentless forms + 12 forms
                      referring to a parent P, P over the other ids, a never-registered id and (full menu)
                      a built-in id.  The menu strings carry their intended meaning, so the package's
                      description parser is under test as well.
@@ -48,7 +48,8 @@ REQUIRED_FEATURES = ["pending-then-resolved", "unknown-parent-stays-uncolored", 
                      "explicit-beats-default", "spelling:nested", "spelling:flat", "mode:global",
                      "mode:no_color", "mode:standalone", "batched-registration", "chain-depth>=2",
                      "builtin-parent", "modifier-overridden", "mech:palette-ctor", "mech:register",
-                     "mech:add_new_items", "mech:parents", "all-explicit", "none-explicit", "text-colored"]
+                     "mech:add_new_items", "mech:parents", "all-explicit", "none-explicit", "text-colored",
+                     "color-id-0", "color-id-0-overrides-parent-color"]
 
 INH, DFL = R.INHERIT, R.DEFAULT
 UNKNOWN = "U"
@@ -60,6 +61,8 @@ ROOT_TEMPLATES = [
     ("fg-bg-mod", "RED/BLUE:bold", "RED", "BLUE", {"bold": True}),
     ("empty", "", INH, INH, {}),
     ("dash", "-", DFL, INH, {}),
+    ("int-zero", "0", 0, INH, {}),                    # colour id 0 is a falsy value
+    ("int-zero", "0/BLUE", 0, "BLUE", {}),
 ]
 REF_TEMPLATES = [
     ("ref", "{P}", INH, INH, {}),
@@ -71,6 +74,9 @@ REF_TEMPLATES = [
     ("dash-with-parent", "{P}:-/-", DFL, DFL, {}),
     ("ref-rgb-gray-mod", "{P}:(1,2,3)/g5:underline", (1, 2, 3), "g5", {"underline": True}),
     ("ref-int", "{P}:17", 17, INH, {}),
+    ("ref-int-zero", "{P}:0", 0, INH, {}),
+    ("ref-int-zero", "{P}:/0", INH, 0, {}),
+    ("ref-int-zero", "{P}:0/7:bold", 0, 7, {"bold": True}),
 ]
 REDUCED_ROOT = ("fg", "fg-bg-mod", "empty")
 REDUCED_REF = ("{P}", "{P}:no_bold", "{P}:-", "{P}:/YELLOW")
@@ -145,16 +151,17 @@ def families(tier):
                ("no_color", "nested", "palette-ctor"), ("standalone", "flat", "register"),
                ("standalone", "nested", "parents"), ("global", "nested", "register"),
                ("standalone-text", "nested", "palette-ctor")]
+    quickvar = [v for v in somevar if v not in (("standalone", "flat", "register"), ("global", "nested", "register"))]
     F = lambda name, n, red, bi, unk, var, nsh: (name, n, red, (bi, unk), var, nsh)     # noqa
     fam = [F("n2-full", 2, False, True, True, allvar, 8),
            F("n3-full", 3, False, False, False, std, 96),
-           F("n3-reduced-variants", 3, True, False, True, somevar, 48),
+           F("n3-reduced-variants", 3, True, False, True, quickvar, 48),
            F("conflict-n2", 2, False, False, True, [("standalone", "nested", "palette-ctor"),
                                                     ("global", "flat", "register")], 8),
            F("conflict-n3", 3, True, False, True, std, 16)]
     if tier == "thorough":
         fam = [F("n2-full", 2, False, True, True, allvar, 8),
-               F("n3-full-builtin", 3, False, True, True, std + [("global", "flat", "palette-ctor")], 192),
+               F("n3-full-builtin", 3, False, True, True, std, 256),
                F("n3-reduced-variants", 3, True, True, True, allvar, 96),
                F("n4-reduced", 4, True, False, False, std, 384),
                F("conflict-n2", 2, False, True, True, allvar, 8),
@@ -300,11 +307,18 @@ def execute(n, strs, sem, explicit, batches, conflict, spelling, mech, mode, acc
     spal = None
     probe_ids = ids + [UNKNOWN, "ZZ.Q"]
 
+    def depth(sid):
+        k = 0
+        while sid in registered and registered[sid].parent is not None and k < 10:
+            sid = registered[sid].parent
+            k += 1
+        return k
+
     def check(step, conf):
         colored = 0
         pal = PAL[n](conf)
         gpal = conf.get_palette()
-        for sid in probe_ids:
+        for sid in sorted(probe_ids, key=depth):          # ancestors first: report where an error originates
             exp = expected_state(sid, registered, no_color)
             views = [("get_color", conf.get_color(sid)), ("get_palette", gpal[sid]),
                      ("get_palette.get_color", gpal.get_color(sid))]
@@ -452,6 +466,11 @@ def measure_features(n, sem, explicit, batches, feats):
             feats.add("builtin-parent")
         if d.kind == "dash-with-parent":
             feats.add("dash-with-parent")
+        if d.fg == 0 or d.bg == 0:
+            feats.add("color-id-0")
+            par = sem.get(d.parent) or BUILTIN_DESCRS.get(d.parent)
+            if par is not None and ((d.fg == 0 and par.fg not in (INH, DFL)) or (d.bg == 0 and par.bg not in (INH, DFL))):
+                feats.add("color-id-0-overrides-parent-color")
         if d.parent in sem and sem[d.parent].parent is not None:
             feats.add("chain-depth>=2")
         if d.parent in sem and any(k in sem[d.parent].mods for k in d.mods):
